@@ -81,6 +81,26 @@ func main() {
 func worker(c *checks.Check, tier string, seed int64, shard, n int, out string) {
 	debug.SetMemoryLimit(3 << 30)
 	r := rep.New(c.ID, tier, seed, shard, n)
+	// monitor: a guarded library call that does not come back
+	go func() {
+		for {
+			time.Sleep(500 * time.Millisecond)
+			hung, kind, cas, note, site := checks.Hung()
+			if !hung {
+				continue
+			}
+			if kind == "" {
+				kind, cas = "hang", map[string]string{"note": note, "site": site}
+			}
+			r.Cap("shard %d stopped at a library call that does not return", shard)
+			r.Violate(c.ID+"/library-call-does-not-return/"+site, fmt.Sprintf("a library call has been running for %v of real time although every wait it may make is virtual or bounded: it loops without end (%s) @ %s", checks.HangLimit, note, site), kind, cas, nil)
+			if err := r.WriteShard(out); err != nil {
+				fmt.Fprintln(os.Stderr, "write shard:", err)
+				os.Exit(3)
+			}
+			os.Exit(0)
+		}
+	}()
 	func() {
 		defer func() {
 			if e := recover(); e != nil {
